@@ -61,6 +61,10 @@ def cases(chk):
         yield "login", c
     for v in VARIANTS:
         yield "login", {"variant": v, "edge": False, "passive": False, "cuts": [], "corrupt": False, "immediate": 0, "down": 1, "up": 1, "chunk": 0, "seed": 900 + len(v), "login": 1}
+    # a reply that does not authenticate FOLLOWED by more bytes of the same dead session, then the next login
+    for i in range(8):
+        yield "login", {"variant": VARIANTS[i % len(VARIANTS)], "edge": False, "passive": bool(i % 2), "cuts": ["bad-answer"] * (1 + i % 2), "corrupt": False, "immediate": 0,
+                        "down": 1, "up": 1, "chunk": [0, 5][i % 2], "seed": 950 + i, "extra": 1}
     # frames written together with the server's reply of a resumed login: the race between the end of the handshake and the network thread
     for i in range(chk.scale(40, 600)):
         yield "login", {"variant": "IK", "edge": False, "passive": r.random() < 0.5, "cuts": [], "corrupt": False, "immediate": r.randint(1, 4),
@@ -71,7 +75,7 @@ def cases(chk):
                         "cuts": [r.choice(["before-answer", "mid-answer", "after-handshake", "closed-in-read", "bad-answer"]) for _i in range(r.choice([0, 0, 1, 1, 2]))],
                         "corrupt": r.random() < 0.15, "immediate": r.choice([0, 0, 1, 2, 4]) if v == "IK" else 0,
                         "down": r.randint(0, 5), "up": r.randint(0, 5), "chunk": r.choice([0, 1, 2, 3, 7, 16, 64]), "seed": r.randrange(1 << 30), "vary": int(r.random() < 0.5),
-                        "login": int(r.random() < 0.4)}
+                        "login": int(r.random() < 0.4), "extra": int(r.random() < 0.4)}
     # several logins on one stack with the settings changed in between: each login presents the settings in force THEN
     for i, cuts in enumerate((["after-handshake"], ["after-handshake", "after-handshake"], ["before-answer", "after-handshake"], ["closed-in-read"], ["bad-answer", "after-handshake"])):
         for passive in (False, True):
@@ -250,6 +254,13 @@ def run_case(chk, stream, case):
                     # the server's reply does not authenticate; the connection is lost while the handshake thread of this attempt may or
                     # may not have looked at it yet (the schedule decides) and the client logs in again
                     deliver(reply)
+                    if case.get("extra"):
+                        # the server, unaware that its reply will not authenticate, goes on writing: one more segment arrives before the connection is lost
+                        junk = bytes(r.randrange(256) for _ in range(24 + r.randrange(40)))
+                        try:
+                            deliver(len(junk).to_bytes(3, "big") + junk)
+                        except Exception:
+                            pass        # a session that failed may refuse further input with an error to the reader (C12's subject); the connection goes down next
                     for _i in range(r.choice([0, 0, 1, 3, 10])):
                         coop.point()
                 elif cut == "mid-answer":
